@@ -134,7 +134,8 @@ def gen_history(rng, big=False):
     toks = []
     connected = set()
     if rng.random() < 0.6:
-        timeout_set = rng.choice([1, 2, 3, 5, 10, 60, 300, 0])
+        timeout_set = rng.choice([1, 2, 3, 5, 10, 60, 300, 0]) if rng.random() < 0.93 else \
+            rng.choice([4294967, 4294968, 4294969, 2 ** 32 - 1, 86400 * 365])     # seconds * ticks beyond 32 bits
         toks.append("s%d" % timeout_set)
         timeout = timeout_set or 300
     if rng.random() < 0.6:
@@ -289,7 +290,7 @@ def gen_history(rng, big=False):
                                             max(1, t - 1), t, t + 1, 2 * t, max(1, t - 2000), t // 2 + 1]))
         elif c < 0.96: toks.append("i")
         elif c < 0.975:
-            timeout_set = rng.choice([1, 2, 5, 60, 0])
+            timeout_set = rng.choice([1, 2, 5, 60, 0]) if rng.random() < 0.93 else rng.choice([4294967, 4294968, 2 ** 32 - 1])
             toks.append("s%d" % timeout_set)
             timeout = timeout_set or 300
         elif c < 0.99: toks.append("m%d" % rng.choice([0, 1, 2, 3, 5]))
